@@ -281,6 +281,144 @@ fn goldens(run: &mut Run) {
     }
 }
 
+
+// -------------------------------------------------------------------------------------
+// (e) the parameter vector is bound to the machine's step prices by *name*
+//
+// Every in-tree default has the same price for every step kind, so a cost model that reads a
+// step's price from the wrong position of the ledger's parameter vector is invisible to
+// (a)-(d).  Here the vector gets pairwise distinct prices at the positions the ledger's
+// (alphabetical) parameter order assigns to cekApplyCost .. cekVarCost, the cost model is
+// built through the public `initialize_cost_model_with_protocol`, and the identity is
+// re-checked against the harness's own name -> price table.
+
+/// (step-kind index in STEP_KINDS / 9 = startup, cpu position, mem position) by the
+/// ledger's alphabetical parameter order; constr / case live in the V3-only tail.
+fn step_price_positions(v3_tail: Option<usize>) -> Vec<(usize, usize, usize)> {
+    // cekApplyCost(17,18) cekBuiltinCost(19,20) cekConstCost(21,22) cekDelayCost(23,24)
+    // cekForceCost(25,26) cekLamCost(27,28) cekStartupCost(29,30) cekVarCost(31,32)
+    let mut v = vec![(3, 17, 18), (6, 19, 20), (0, 21, 22), (4, 23, 24), (5, 25, 26), (2, 27, 28), (9, 29, 30), (1, 31, 32)];
+    if let Some(t) = v3_tail {
+        // the V3 tail holds cekConstrCost and cekCaseCost; which of the two comes first could
+        // not be confirmed offline (the tail is not alphabetical), so both get the *same*
+        // price here (see `distinct_step_prices`): a swap between these two is not observable
+        // by this check, any other mis-binding is.
+        v.push((7, t, t + 1));
+        v.push((8, t + 2, t + 3));
+    }
+    v
+}
+
+/// The in-tree default parameter vector of a language (only V1's is public, so all three
+/// are read from the source file: any vector of the right length and plausible magnitudes
+/// serves, the step prices are overwritten below).
+fn default_vector(name: &str) -> Option<Vec<i64>> {
+    let src = std::fs::read_to_string("/repo/crates/uplc/src/machine/cost_model.rs").ok()?;
+    let start = src.find(&format!("const {name}: [i64;"))?;
+    let open = start + src[start..].find("= [")? + 3;
+    let close = open + src[open..].find("];")?;
+    let v: Vec<i64> = src[open..close].split(',').filter_map(|x| x.trim().parse().ok()).collect();
+    (v.len() > 150).then_some(v)
+}
+
+fn distinct_step_prices(run: &mut Run, tier: Tier) {
+    use uplc::machine::cost_model::initialize_cost_model_with_protocol;
+    let primes_cpu: [i64; 10] = [1_000_003, 1_000_033, 1_000_037, 1_000_039, 1_000_081, 1_000_099, 1_000_117, 1_000_121, 1_000_133, 1_000_151];
+    let mut primes_mem: [i64; 10] = [101, 103, 107, 109, 113, 127, 131, 137, 139, 149];
+    let mut primes_cpu = primes_cpu;
+    primes_cpu[8] = primes_cpu[7];
+    primes_mem[8] = primes_mem[7];
+    let max = if tier == Tier::Quick { 4 } else { 5 };
+    let mut en = Enumerator::new(c03_alphabet(0, false));
+    let total = en.total(max);
+    let mut checked = 0u64;
+    let mut kinds_seen = [0u64; 9];
+    for (lang, pv, variant, defaults) in [
+        (Language::PlutusV1, 10u16, Variant::B, default_vector("DEFAULT_V1")),
+        (Language::PlutusV2, 10u16, Variant::B, default_vector("DEFAULT_V2")),
+        (Language::PlutusV3, 10u16, Variant::C, default_vector("DEFAULT_V3")),
+    ] {
+        let Some(defaults) = defaults else {
+            run.machinery_error("could not read the default parameter vectors from crates/uplc/src/machine/cost_model.rs");
+            return;
+        };
+        // the V3-only tail is located by value: the only place after the first block where the
+        // default vector repeats (16000, 100, 16000, 100)
+        let tail = (33..defaults.len().saturating_sub(3)).find(|&i| defaults[i..i + 4] == [16000, 100, 16000, 100]);
+        let has_tail = matches!(lang, Language::PlutusV3);
+        let mut vec = defaults.clone();
+        let mut price = [(0i64, 0i64); 10];
+        for (kind, cpos, mpos) in step_price_positions(if has_tail { tail } else { None }) {
+            vec[cpos] = primes_cpu[kind];
+            vec[mpos] = primes_mem[kind];
+            price[kind] = (primes_cpu[kind], primes_mem[kind]);
+        }
+        let lname = format!("{:?}", lang);
+        for idx in 0..total {
+            let t = en.unrank_global(max, idx);
+            let r = cek_ref::eval(&t, variant, 100_000);
+            if r.outcome != Outcome::Value {
+                continue;
+            }
+            if !has_tail && (r.stats.steps[7] > 0 || r.stats.steps[8] > 0) {
+                continue; // constr/case prices are not part of the V1/V2 vectors
+            }
+            let cm = initialize_cost_model_with_protocol(&lang, pv, &vec);
+            let mut cpu = price[9].0 as i128;
+            let mut mem = price[9].1 as i128;
+            for k in 0..9 {
+                cpu += price[k].0 as i128 * r.stats.steps[k] as i128;
+                mem += price[k].1 as i128 * r.stats.steps[k] as i128;
+                if r.stats.steps[k] > 0 {
+                    kinds_seen[k] += 1;
+                }
+            }
+            let mut ok = true;
+            for (f, args) in &r.stats.calls {
+                let vals: Vec<Value> = args.iter().map(rvalue_to_value).collect();
+                match cm.builtin_costs.to_ex_budget(*f, &vals, semantics_of(variant)) {
+                    Ok(b) => {
+                        cpu += b.cpu as i128;
+                        mem += b.mem as i128;
+                    }
+                    Err(_) => ok = false,
+                }
+            }
+            if !ok {
+                continue;
+            }
+            let term = rterm::to_named_debruijn(&t);
+            let l2 = lang.clone();
+            let got = guarded(move || {
+                let mut m = Machine::new_with_protocol(l2, pv, cm, ExBudget { cpu: INF, mem: INF }, 200);
+                let r = m.run(term);
+                (r.is_ok(), INF - m.ex_budget.cpu, INF - m.ex_budget.mem)
+            });
+            checked += 1;
+            match got {
+                Ok((true, c, m)) if (c as i128, m as i128) == (cpu, mem) => {}
+                Ok((true, c, m)) => {
+                    // which step kind explains the difference?
+                    let dc = c as i128 - cpu;
+                    let culprit = (0..9).find(|&k| r.stats.steps[k] > 0 && (0..10).any(|j| j != k && dc == (price[j].0 - price[k].0) as i128 * r.stats.steps[k] as i128)).map(|k| cek_ref::STEP_KINDS[k]).unwrap_or("?");
+                    run.violation(Violation {
+                        signature: format!("step-price-not-taken-from-its-parameter|{lname}|{culprit}"),
+                        what: format!("{lname}: with pairwise distinct step prices in the parameter vector, {} is charged cpu={c} mem={m}; start-up + steps {:?} at their named prices + builtin calls give cpu={cpu} mem={mem}", rterm::show(&t), r.stats.steps),
+                        case: json!({"engine":"c05-prices","language":lname,"index":idx,"max_size":max}),
+                    });
+                }
+                Ok((false, ..)) => run.violation(Violation { signature: format!("fails-with-unlimited-budget|prices|{lname}"), what: format!("{lname}: {} fails under the perturbed cost model although the reference succeeds", rterm::show(&t)), case: json!({"engine":"c05-prices","language":lname,"index":idx,"max_size":max}) }),
+                Err(p) => run.violation(Violation { signature: "panic|machine".into(), what: format!("{}: {p}", rterm::show(&t)), case: json!({"engine":"c05-prices","language":lname,"index":idx,"max_size":max}) }),
+            }
+        }
+    }
+    run.set("distinct_price_identities_checked", checked);
+    run.set("distinct_price_terms_per_step_kind", json!(cek_ref::STEP_KINDS.iter().zip(kinds_seen.iter()).map(|(k, n)| json!({*k: n})).collect::<Vec<_>>()));
+    if checked < 1000 || kinds_seen.iter().any(|n| *n == 0) {
+        run.machinery_error("vacuous: the distinct-price check did not exercise every step kind");
+    }
+}
+
 // -------------------------------------------------------------------------------------
 // (d) size measures
 
@@ -454,6 +592,7 @@ pub fn run(tier: Tier, replay: Option<String>) -> i32 {
     let mut run = Run::new("C05", tier);
     goldens(&mut run);
     size_relations(&mut run);
+    distinct_step_prices(&mut run, tier);
 
     // (b)+(c) over the C03 term space
     let max_size = match tier {
